@@ -260,6 +260,7 @@ func (h *HopByHopHeader) UnmarshalBinary(data []byte) error {
 		return errors.New("The []byte is too short to unmarshal a full HopByHopHeader message.")
 	}
 	n += 1
+	h.Options = nil
 	for n < int(h.Len()) {
 		o := new(Option)
 		err := o.UnmarshalBinary(data[n:])
